@@ -16,7 +16,7 @@ RESP = 'smbus_response::MCTPSMBusContextResponse'
 CTX = "smbus::MCTPSMBusContext::<'_>"
 TRAIT = 'mctp_traits::SMBusMCTPRequestResponse'
 
-ENGINE_VERSION = '9'
+ENGINE_VERSION = '12'
 
 
 def vendor_format_domain(name):
@@ -58,7 +58,7 @@ class Analysis:
         P = self.prog
         ent = {}
         for key, inst in P.instances.items():
-            if not inst['local']:
+            if not inst['local'] or inst.get('closure') or not inst.get('sig'):
                 continue
             path = inst['path']
             # public encoders of the two halves
@@ -135,7 +135,24 @@ class Analysis:
         it = Interp(self.prog)
         it.domain_hook = spec.get('hook')
         ma = make_args or default_args(opts=spec.get('opts'), overrides=spec.get('overrides'))
-        leaves, na = it.run(spec['key'], ma, spec.get('assume'), label=spec.get('label'))
+        try:
+            leaves, na = it.run(spec['key'], ma, spec.get('assume'), label=spec.get('label'))
+        except Exception as e:      # fail closed: the whole entry point becomes one unanalysable leaf
+            from interp import Leaf
+            from terms import Know
+            lf = Leaf()
+            lf.kind = 'unanalysable'
+            lf.value = None
+            lf.facts = []
+            lf.know = Know()
+            lf.effects = []
+            lf.heap = {}
+            sp = self.prog.instances[spec['key']]['span']['at']
+            lf.stack = [(spec['key'], sp, sp)]
+            lf.panic = ('unsupported', 'the interpreter failed on this entry point: %s: %s' % (type(e).__name__, str(e)[:200]))
+            lf.entry = spec.get('label') or spec['key']
+            lf.notes = []
+            leaves, na = [lf], 0
         stats = dict(it.stats)
         stats['leaves'] = len(leaves)
         return (leaves, na), stats
